@@ -291,6 +291,25 @@ theorem signature_needed_vdi (s : Insp) (hf : s.fmt = .vdi) (h : formatMatch s =
         simp only [hu, pure, Except.pure, Except.ok.injEq, beq_iff_eq] at h
         exact ⟨r, rfl, hc, by rw [hu, h]⟩
 
+theorem signature_needed_gpt (s : Insp) (hf : s.fmt = .gpt) (h : formatMatch s = .ok true) :
+    ∃ m, s.region "mbr" = .ok m ∧ m.complete = true ∧
+      unpackLE 2 (slice m.data 510 512) = .ok Gen.gptMbrSignature := by
+  simp only [formatMatch, hf, bind, Except.bind] at h
+  cases hr : s.region "mbr" with
+  | error e => simp [hr] at h
+  | ok m =>
+    simp only [hr] at h
+    cases hc : m.complete
+    · simp [hc, pure, Except.pure] at h
+    · simp only [hc, Bool.not_true, Bool.false_eq_true, if_false] at h
+      split at h
+      · cases hu : unpackLE 2 (slice m.data 510 512) with
+        | error e => simp [hu] at h
+        | ok v =>
+          simp only [hu, pure, Except.pure, Except.ok.injEq, Bool.and_eq_true, beq_iff_eq] at h
+          exact ⟨m, rfl, hc, by rw [hu, h.1]⟩
+      · simp [throw, throwThe, MonadExceptOf.throw] at h
+
 /-- VMDK in sparse mode (a header region exists): a match needs the `KDMV` magic -/
 theorem signature_needed_vmdk (s : Insp) (hf : s.fmt = .vmdk) (r : Region)
     (hr : lookupR "header" s.regions = some r) (h : formatMatch s = .ok true) :
